@@ -233,6 +233,18 @@ class Simulator(Computer, _mixins.CodeMixin):
                     f"{self._measurement_classes_allowed_mid_circuit}."
                 )
 
+    def _validate_measurements_with_shots_none(
+        self, instructions: List[Instruction]
+    ) -> None:
+        for instruction in instructions:
+            if isinstance(instruction, Measurement) and not isinstance(
+                instruction, self._measurement_classes_allowed_with_shots_none
+            ):
+                raise InvalidParameter(
+                    f"The measurement '{type(instruction).__name__}' instruction does "
+                    f"not support 'shots=None' using '{self.__class__.__name__}'."
+                )
+
     def _validate_instruction_order(self, instructions: List[Instruction]) -> None:
         self._validate_preparations_at_beginning(instructions)
 
@@ -434,6 +446,9 @@ class Simulator(Computer, _mixins.CodeMixin):
         d = self._try_to_infer_d_from_instructions(instructions)
 
         self._validate_instructions(instructions, d)
+
+        if shots is None:
+            self._validate_measurements_with_shots_none(instructions)
 
         if initial_state is not None:
             self._validate_initial_state(initial_state, d)
